@@ -41,6 +41,7 @@ type Cfg struct {
 	Revs        []int64  `json:"revs"`   // initial revision counters of the nodes (C09)
 	States      []string `json:"states"` // initial registration states ("closed" | "rebuilding" | "dirty")
 	InitOps     []string `json:"init_ops"`
+	WBlocks     []int    `json:"wblocks"` // blocks the Wb event may write
 }
 
 func (c *Cfg) has(l []string, s string) bool {
@@ -135,6 +136,8 @@ type cluster struct {
 	attachAt map[int]int // be seq -> number of writes issued when it was attached
 	synced   map[int]bool
 	failedBE map[int]bool // be seq -> failed a call by script
+	opFailed map[int]bool // node -> its call failed by script during the current I/O event
+	opIO     bool         // the current event is a data-path operation
 
 	pendingFailed  []int    // nodes that failed the last I/O: must be detached once the controller is quiescent
 	internalBefore []string // internal events that were pending when the current external event started
@@ -232,6 +235,7 @@ func (x nodeIOs) pre(op string) error {
 	}
 	if cl.failIO[x.b.node] {
 		cl.failedBE[x.b.seq] = true
+		cl.opFailed[x.b.node] = true
 		return fmt.Errorf("injected I/O failure on node %d", x.b.node)
 	}
 	cl.calls = append(cl.calls, call{x.b.seq, x.b.node, op})
@@ -243,7 +247,16 @@ func (x nodeIOs) WriteAt(b []byte, off int64) (int, error) {
 	if err := x.pre("W"); err != nil {
 		return 0, err
 	}
-	return x.cl.nodes[x.b.node].WriteAt(b, off)
+	n, err := x.cl.nodes[x.b.node].WriteAt(b, off)
+	x.failed(err)
+	return n, err
+}
+
+// failed records that the node itself (not the script) failed the call: its process is gone or it refused.
+func (x nodeIOs) failed(err error) {
+	if err != nil {
+		x.cl.opFailed[x.b.node] = true
+	}
 }
 func (x nodeIOs) ReadAt(b []byte, off int64) (int, error) {
 	ioMu.Lock()
@@ -251,7 +264,9 @@ func (x nodeIOs) ReadAt(b []byte, off int64) (int, error) {
 	if err := x.pre("R"); err != nil {
 		return 0, err
 	}
-	return x.cl.nodes[x.b.node].ReadAt(b, off)
+	n, err := x.cl.nodes[x.b.node].ReadAt(b, off)
+	x.failed(err)
+	return n, err
 }
 func (x nodeIOs) Sync() (int, error) {
 	ioMu.Lock()
@@ -259,7 +274,9 @@ func (x nodeIOs) Sync() (int, error) {
 	if err := x.pre("S"); err != nil {
 		return -1, err
 	}
-	return x.cl.nodes[x.b.node].Sync()
+	n, err := x.cl.nodes[x.b.node].Sync()
+	x.failed(err)
+	return n, err
 }
 func (x nodeIOs) Unmap(o, l int64) (int, error) {
 	ioMu.Lock()
@@ -267,7 +284,9 @@ func (x nodeIOs) Unmap(o, l int64) (int, error) {
 	if err := x.pre("U"); err != nil {
 		return -1, err
 	}
-	return x.cl.nodes[x.b.node].Unmap(o, l)
+	n, err := x.cl.nodes[x.b.node].Unmap(o, l)
+	x.failed(err)
+	return n, err
 }
 func (x nodeIOs) Close() error { return nil }
 
@@ -343,7 +362,7 @@ func newCluster(cfg *Cfg, scratch string) *cluster {
 		cfg.N = cfg.RF + 1
 	}
 	os.Setenv("REPLICATION_FACTOR", fmt.Sprint(cfg.RF))
-	cl := &cluster{cfg: cfg, fe: &frontend{}, cnt: map[string]int{}, acked: map[int]bool{}, issued: map[int]bool{}, attachAt: map[int]int{}, synced: map[int]bool{}, failedBE: map[int]bool{},
+	cl := &cluster{cfg: cfg, fe: &frontend{}, cnt: map[string]int{}, acked: map[int]bool{}, issued: map[int]bool{}, attachAt: map[int]int{}, synced: map[int]bool{}, failedBE: map[int]bool{}, opFailed: map[int]bool{},
 		failIO: map[int]bool{}, failREST: map[string]bool{}, stickyREST: map[string]bool{}}
 	cl.down = make([]bool, cfg.N)
 	for i := 0; i < cfg.N; i++ {
